@@ -6,6 +6,11 @@ them, recomputed from the source on every run, is the reviewed one the model `Hi
 written from.  A new module-level cache, class-level counter or mutation site leaves this
 obligation undischarged.
 -/
+/-! The inventory has three sections (separated by `--`): process-wide objects; statements that mutate process-wide state;
+and **object state written after construction** -- every attribute / item assignment or deletion outside `__init__` and
+every caching decorator in `src/stingray`: the places where a schema, maker, navigator, sheet or reader could come to depend
+on what was done with it before.  A new lazily filled cache, a value written back into a schema, a maker kept on an
+unpacker all add a line, and `state_inventory` no longer checks. -/
 namespace Stingray.Tie.C11
 open Stingray.Extracted
 
